@@ -3,7 +3,7 @@ CFG = dict(
               "C14.changed_cols_eq_spec", "C14.had_changed_eq_spec", "C14.acc_eq_spec",
               "C14.partitionKey_injective", "C14.lru_no_evict_of_le_cap", "C14.engine_eq_spec",
               "C14.partition_isolation", "C14.lru_evict_resets", "C14.when_gating", "C14.where_order",
-              "C14.field_eq_spec", "C14.oracle_cap_flags", "C14.facts_constants"],
+              "C14.field_eq_spec", "C14.query_column_eq_spec", "C14.oracle_cap_flags", "C14.facts_constants"],
     rule="a case = one generated query (1-3 analytic SELECT fields out of lag/latest/had_changed/changed_col/changed_cols/acc_* "
          "with offsets, defaults, ignoreNull, start/reset, wrappers `col - lag(col)` and `acc_max - acc_min`, OVER (PARTITION BY k1[,k2] WHEN g cmp c), "
          "WHERE none / plain / with an analytic call / both; cap 1,2,3 or default) and 6-30 rows of 2-5 partitions interleaved at random "
@@ -19,7 +19,8 @@ CFG = dict(
         "sync/async equality is checked on the implementation (oracle clause sync-async-differ); both paths share applyWhereAndAnalytic, so the model has one step function for both",
     ],
     unproved=[
-        "composition of the per-field engines into one output row (evalAll, projectAnalytic naming/omission of changed_col NULLs) is tied by correspondence only",
+        "assembly of the per-field values into the delivered row (projectAnalytic: aliases, omission of NULL changed_col, prefix fan-out of changed_cols) and "
+        "Spec.expected = model output as one statement are tied by correspondence only (proved: every column of the query's analytic engine = its field's definition, and which rows reach it)",
     ],
 )
 META = dict(
